@@ -146,6 +146,12 @@ def kf_conv_len_exceeds_dmax(case, o, kind, cfg, consts):
     return m.get('cls') == 'conv' and m.get('op') in ('mbstowcs', 'wcstombs') and kind == 'write-past-dmax' and m['len'] > m['dmax'] and o.fault == '-'
 
 @pred
+def kf_conv_bos_len_clears_object(case, o, kind, cfg, consts):
+    # known object size, dmax elements fit it, len elements do not: EOVERFLOW/ESLEMAX and the whole object is cleared, beyond dest[dmax)
+    m = case.meta
+    return m.get('kind') == 'bos-len' and kind in ('write-past-dmax', 'write-outside') and o.ret in ('75', '403')
+
+@pred
 def kf_wcxtomb_small_dmax(case, o, kind, cfg, consts):
     # wcrtomb_s / wctomb_s call libc with dest before knowing whether the character fits: up to MB_CUR_MAX bytes are stored
     m = case.meta
